@@ -33,13 +33,20 @@ type scanOut struct {
 }
 
 // scanAll drives the exported scanner over text until EOF (at most len+2 scans).
-func scanAll(text []byte) (out scanOut) {
+func scanAll(text []byte) (out scanOut) { return scanAllWith(text, true) }
+
+// scanAllWith: with or without an error handler installed (the scanner accepts nil).
+func scanAllWith(text []byte, handler bool) (out scanOut) {
 	defer func() {
 		if p := recover(); p != nil {
 			out.Panic = p
 		}
 	}()
-	sc := formula.CreateScanner(text, func(msg *formula.DiagnosticMessage, pos int, length int) { out.Errors++ })
+	var onError formula.ErrorHandler
+	if handler {
+		onError = func(msg *formula.DiagnosticMessage, pos int, length int) { out.Errors++ }
+	}
+	sc := formula.CreateScanner(text, onError)
 	for i := 0; i <= len(text)+1; i++ {
 		k := sc.Scan()
 		tk := scanTok{Kind: obs.KindName(k), Start: sc.GetStartPos(), Pos: sc.GetTokenPos(), End: sc.GetTextPos(), NL: sc.HasPrecedingLineBreak(), ErrorsBefore: out.Errors}
@@ -87,6 +94,17 @@ func checkTiling(text []byte) string {
 			p += sz
 		}
 		prevEnd = tk.End
+	}
+	// the tokens are a function of the text: a scanner created without an error handler yields the same ones
+	if q := scanAllWith(text, false); q.Panic != nil || q.Stuck || len(q.Toks) != len(o.Toks) {
+		return fmt.Sprintf("scanner without an error handler on %q: panic=%v stuck=%v, %d tokens against %d with a handler", text, q.Panic, q.Stuck, len(q.Toks), len(o.Toks))
+	} else {
+		for i := range q.Toks {
+			a, b := o.Toks[i], q.Toks[i]
+			if a.Kind != b.Kind || a.Start != b.Start || a.Pos != b.Pos || a.End != b.End || a.Value != b.Value || a.NL != b.NL {
+				return fmt.Sprintf("token %d of %q is %s[%d,%d) %q with an error handler installed and %s[%d,%d) %q without one", i, text, a.Kind, a.Pos, a.End, a.Value, b.Kind, b.Pos, b.End, b.Value)
+			}
+		}
 	}
 	last := o.Toks[len(o.Toks)-1]
 	if last.Kind != "eof" || last.End != len(text) || last.Pos != len(text) {
